@@ -139,6 +139,22 @@ def _mm_storeu_si128 (a : BitVec 128) : List (BitVec 8) :=
   [b8 a 0, b8 a 1, b8 a 2, b8 a 3, b8 a 4, b8 a 5, b8 a 6, b8 a 7,
    b8 a 8, b8 a 9, b8 a 10, b8 a 11, b8 a 12, b8 a 13, b8 a 14, b8 a 15]
 
+/-! ## compare (used by `eq128_s2` / `eq128_s4` of sse2.rs: the `PartialEq` of the vector types) -/
+
+/-- `pcmpeqb`: `dst.byte[i] := (a.byte[i] == b.byte[i]) ? 0xFF : 0` -/
+def _mm_cmpeq_epi8 (a b : BitVec 128) : BitVec 128 := mk8 fun i => if b8 a i = b8 b i then 0xff#8 else 0#8
+/-- `pcmpeqw` -/
+def _mm_cmpeq_epi16 (a b : BitVec 128) : BitVec 128 := mk16 fun i => if w16 a i = w16 b i then 0xffff#16 else 0#16
+/-- `pcmpeqd`: `dst.dword[i] := (a.dword[i] == b.dword[i]) ? 0xFFFFFFFF : 0` -/
+def _mm_cmpeq_epi32 (a b : BitVec 128) : BitVec 128 :=
+  mk32 fun i => if d32 a i = d32 b i then 0xffffffff#32 else 0#32
+/-- `pcmpeqq` (SSE4.1): `dst.qword[i] := (a.qword[i] == b.qword[i]) ? 0xFFFFFFFFFFFFFFFF : 0` -/
+def _mm_cmpeq_epi64 (a b : BitVec 128) : BitVec 128 :=
+  mk64 fun i => if q64 a i = q64 b i then 0xffffffffffffffff#64 else 0#64
+/-- `pmovmskb`: bit `i` of the result is the most significant bit of byte `i`; bits 16..31 are zero -/
+def _mm_movemask_epi8 (a : BitVec 128) : BitVec 32 :=
+  (List.range 16).foldr (fun i acc => (acc <<< 1) ||| (if (b8 a i).msb then 1#32 else 0#32)) 0#32
+
 /-! ## AVX2 -/
 
 def _mm256_add_epi32 (a b : BitVec 256) : BitVec 256 :=
